@@ -847,6 +847,8 @@ class Model:
         else:
             raise ValueError("Response must be of class Response.")
         if all(isinstance(term, ACCEPTED_TERMS) for term in terms):
+            # A model is a set of terms: keep the first occurrence of each one
+            terms = [term for i, term in enumerate(terms) if term not in terms[:i]]
             self.common_terms = [term for term in terms if not isinstance(term, GroupSpecificTerm)]
             self.group_terms = [term for term in terms if isinstance(term, GroupSpecificTerm)]
         else:
